@@ -26,7 +26,14 @@ func (ex *Exec) unsupported(n ast.Node, f string, a ...interface{}) {
 func (ex *Exec) typeOf(e ast.Expr) types.Type { return ex.P.Info.TypeOf(e) }
 
 func (ex *Exec) exprStr(e ast.Node) string {
-	return types.ExprString(e.(ast.Expr))
+	if x, ok := e.(ast.Expr); ok {
+		return types.ExprString(x)
+	}
+	switch s := e.(type) {
+	case *ast.RangeStmt:
+		return "range " + types.ExprString(s.X)
+	}
+	return fmt.Sprintf("%T", e)
 }
 
 // eval evaluates e in st (which may be updated by calls inside e).
@@ -379,11 +386,16 @@ func (ex *Exec) addressOf(st *State, e *ast.UnaryExpr) Val {
 			return scalar(pt, Sym("GA$"+sanitize(obj.Name()), SInt))
 		}
 		ex.unsupported(e, "address of unboxed variable %s", x.Name)
-	case *ast.SelectorExpr:
-		// &p.f where p is a pointer to a struct and f an embedded struct-typed field: unsupported interior pointer
-		ex.unsupported(e, "interior pointer &%s", ex.exprStr(x))
-	case *ast.IndexExpr:
-		ex.unsupported(e, "interior pointer &%s", ex.exprStr(x))
+	case *ast.SelectorExpr, *ast.IndexExpr:
+		// interior pointer: modelled as a pointer to a fresh copy of the current value. Sound for
+		// nil-ness and for reads as long as neither side is written afterwards (no write-through
+		// aliasing is modelled); recorded as an abstraction.
+		ex.note("interior pointer &" + ex.exprStr(x) + " modelled as a pointer to a copy (no write-through aliasing)")
+		v := ex.eval(st, x)
+		ref := st.alloc()
+		st.storeStruct(ref, v.T, v)
+		ex.mutCount++
+		return scalar(pt, ref)
 	}
 	ex.unsupported(e, "address-of %T", e.X)
 	return Val{}
@@ -476,6 +488,7 @@ func (ex *Exec) evalBinary(st *State, e *ast.BinaryExpr) Val {
 		r := st.clone()
 		nb := len(r.facts)
 		r.assume(cond)
+		nstart := len(r.facts)
 		mut0 := ex.mutCount
 		rv := ex.eval(r, e.Y).term()
 		if ex.mutCount != mut0 || r.ctr != st.ctr {
@@ -484,7 +497,7 @@ func (ex *Exec) evalBinary(st *State, e *ast.BinaryExpr) Val {
 			m := mergeStates(cond, r, other, nb)
 			*st = *m
 		} else {
-			for _, f := range r.facts[nb+1:] {
+			for _, f := range r.facts[nstart:] {
 				st.assume(Implies(cond, f))
 			}
 		}
